@@ -20,6 +20,7 @@ type vWallet struct {
 	reserved  map[types.SiacoinOutputID]bool
 	released  map[types.SiacoinOutputID]bool
 	broadcast int
+	broadcastBasis types.ChainIndex
 	failFund  bool
 	log       []string
 }
@@ -49,7 +50,8 @@ func (w *vWallet) ReleaseInputs(txns []types.Transaction, v2txns []types.V2Trans
 		}
 	}
 }
-func (w *vWallet) BroadcastV2TransactionSet(types.ChainIndex, []types.V2Transaction) error {
+func (w *vWallet) BroadcastV2TransactionSet(basis types.ChainIndex, _ []types.V2Transaction) error {
+	w.broadcastBasis = basis
 	w.broadcast++
 	w.log = append(w.log, "broadcast")
 	return nil
@@ -61,9 +63,22 @@ type vFormChain struct {
 	failUpdate, failPool bool
 	poolAccepted         int
 	log                  *[]string
+	// a block may arrive while the RPC is in progress: the final set is then
+	// valid for (and labelled with) the new tip
+	tipMoved            bool
+	setBasis, poolBasis types.ChainIndex
 }
 
-func (c *vFormChain) AddV2PoolTransactions(types.ChainIndex, []types.V2Transaction) (bool, error) {
+func (c *vFormChain) V2TransactionSet(basis types.ChainIndex, txn types.V2Transaction) (types.ChainIndex, []types.V2Transaction, error) {
+	c.setBasis = c.tip
+	if c.tipMoved {
+		c.setBasis = types.ChainIndex{Height: c.tip.Height + 1, ID: types.BlockID{0x5e}}
+	}
+	return c.setBasis, []types.V2Transaction{txn}, nil
+}
+
+func (c *vFormChain) AddV2PoolTransactions(basis types.ChainIndex, _ []types.V2Transaction) (bool, error) {
+	c.poolBasis = basis
 	if c.failPool {
 		return false, errors.New("chain: set rejected by the pool")
 	}
@@ -85,10 +100,12 @@ func (s vFormSettings) RHP4Settings() proto4.HostSettings { return s.s }
 // contractorLog wraps the reference contractor to record the order of calls.
 type contractorLog struct {
 	*testutil.EphemeralContractor
-	log *[]string
+	log   *[]string
+	basis *types.ChainIndex // the basis of the set handed to AddV2Contract / RenewV2Contract
 }
 
 func (c contractorLog) AddV2Contract(ts rhp4.TransactionSet, u proto4.Usage) error {
+	*c.basis = ts.Basis
 	*c.log = append(*c.log, "add-contract")
 	return c.EphemeralContractor.AddV2Contract(ts, u)
 }
@@ -114,9 +131,11 @@ func VerifH_C16_form() {
 	ch := &vFormChain{vChain: vChain{tip: tip}, log: &log}
 	ch.failUpdate = vapi.Bool("update-fails")
 	ch.failPool = vapi.Bool("pool-rejects")
+	ch.tipMoved = vapi.Bool("block-arrives-during-the-rpc")
+	var recBasis types.ChainIndex
 	ec := testutil.VerifNewContractor(tip)
 	settings := vFormSettings{proto4.HostSettings{AcceptingContracts: true, MaxCollateral: types.NewCurrency64(1 << 50), MaxContractDuration: 10000, WalletAddress: wal.Address()}}
-	srv := rhp4.NewServer(hostKey, ch, contractorLog{ec, &log}, wal, settings, &vSectors{has: map[types.Hash256]bool{}})
+	srv := rhp4.NewServer(hostKey, ch, contractorLog{ec, &log, &recBasis}, wal, settings, &vSectors{has: map[types.Hash256]bool{}})
 	hw := &hostWorld{hostKey: hostKey}
 	prices := hw.signedPrices(hostKey, time.Now().Add(time.Hour))
 	badPrices := hw.corruptPrices(&prices)
@@ -170,6 +189,8 @@ func VerifH_C16_form() {
 	vapi.Assert("form.gate", !badPrices && second == 0 && !ch.failPool && (sameBasis || !ch.failUpdate))
 	vapi.Assert("form.recorded", ec.VerifContracts() == 1)
 	vapi.Assert("form.broadcast-once", wal.broadcast == 1)
+	// one basis throughout: the index the final set's proofs are valid for
+	vapi.Assert("form.set-basis-consistent", ch.poolBasis == ch.setBasis && recBasis == ch.setBasis && wal.broadcastBasis == ch.setBasis)
 	for id := range wal.reserved {
 		vapi.Assert("form.kept-reserved", !wal.released[id])
 	}
@@ -204,6 +225,7 @@ func VerifH_C16_form() {
 		got.RenterSignature, got.HostSignature = types.Signature{}, types.Signature{}
 		vapi.Assert("form.contract-is-the-agreed-one", got == fc)
 		vapi.Assert("form.inputs", len(t.SiacoinInputs) == nRenter+wal.nInputs)
+		vapi.Assert("form.response-carries-the-sets-basis", resp3.Basis == ch.setBasis)
 	}
 }
 
@@ -211,6 +233,7 @@ func (c contractorLog) RenewV2Contract(ts rhp4.TransactionSet, u proto4.Usage) e
 	if n := len(ts.Transactions); n > 0 && len(ts.Transactions[n-1].FileContractResolutions) == 1 {
 		vapi.Assert("persist.contract-locked", c.VerifLocked(ts.Transactions[n-1].FileContractResolutions[0].Parent.ID))
 	}
+	*c.basis = ts.Basis
 	*c.log = append(*c.log, "renew-contract")
 	return c.EphemeralContractor.RenewV2Contract(ts, u)
 }
@@ -233,9 +256,11 @@ func VerifH_C16_renew() {
 	ch := &vFormChain{vChain: vChain{tip: tip}, log: &log}
 	ch.failUpdate = vapi.Bool("update-fails")
 	ch.failPool = vapi.Bool("pool-rejects")
+	ch.tipMoved = vapi.Bool("block-arrives-during-the-rpc")
+	var recBasis types.ChainIndex
 	ec := testutil.VerifNewContractor(tip)
 	settings := vFormSettings{proto4.HostSettings{AcceptingContracts: true, MaxCollateral: types.NewCurrency64(1 << 50), MaxContractDuration: 10000, WalletAddress: wal.Address()}}
-	srv := rhp4.NewServer(hostKey, ch, contractorLog{ec, &log}, wal, settings, &vSectors{has: map[types.Hash256]bool{}})
+	srv := rhp4.NewServer(hostKey, ch, contractorLog{ec, &log, &recBasis}, wal, settings, &vSectors{has: map[types.Hash256]bool{}})
 	hw := &hostWorld{hostKey: hostKey}
 	prices := hw.signedPrices(hostKey, time.Now().Add(time.Hour))
 	// the existing contract
@@ -308,6 +333,8 @@ func VerifH_C16_renew() {
 	vapi.Assert("renew.gate", !badChallenge && second == 0 && !ch.failPool && (sameBasis || !ch.failUpdate))
 	vapi.Assert("renew.recorded", ec.VerifHasContract(renewedID))
 	vapi.Assert("renew.broadcast-once", wal.broadcast == 1)
+	// one basis throughout: the index the final set's proofs are valid for
+	vapi.Assert("renew.set-basis-consistent", ch.poolBasis == ch.setBasis && recBasis == ch.setBasis && wal.broadcastBasis == ch.setBasis)
 	pi, ai := -1, -1
 	for i, e := range log {
 		switch e {
@@ -346,9 +373,11 @@ func VerifH_C16_refresh() {
 	ch := &vFormChain{vChain: vChain{tip: tip}, log: &log}
 	ch.failUpdate = vapi.Bool("update-fails")
 	ch.failPool = vapi.Bool("pool-rejects")
+	ch.tipMoved = vapi.Bool("block-arrives-during-the-rpc")
+	var recBasis types.ChainIndex
 	ec := testutil.VerifNewContractor(tip)
 	settings := vFormSettings{proto4.HostSettings{AcceptingContracts: true, MaxCollateral: types.NewCurrency64(1 << 50), MaxContractDuration: 10000, WalletAddress: wal.Address()}}
-	srv := rhp4.NewServer(hostKey, ch, contractorLog{ec, &log}, wal, settings, &vSectors{has: map[types.Hash256]bool{}})
+	srv := rhp4.NewServer(hostKey, ch, contractorLog{ec, &log, &recBasis}, wal, settings, &vSectors{has: map[types.Hash256]bool{}})
 	hw := &hostWorld{hostKey: hostKey}
 	prices := hw.signedPrices(hostKey, time.Now().Add(time.Hour))
 	// the existing contract
@@ -428,6 +457,8 @@ func VerifH_C16_refresh() {
 	vapi.Assert("refresh.gate", !badChallenge && second == 0 && !ch.failPool && (sameBasis || !ch.failUpdate))
 	vapi.Assert("refresh.recorded", ec.VerifHasContract(renewedID))
 	vapi.Assert("refresh.broadcast-once", wal.broadcast == 1)
+	// one basis throughout: the index the final set's proofs are valid for
+	vapi.Assert("refresh.set-basis-consistent", ch.poolBasis == ch.setBasis && recBasis == ch.setBasis && wal.broadcastBasis == ch.setBasis)
 	pi, ai := -1, -1
 	for i, e := range log {
 		switch e {
